@@ -53,6 +53,7 @@ type Pipe struct {
 	Record   bool
 	Wire     []byte // every accepted byte (when Record)
 	WriteEnd []int  // Wire offset after each accepted write (when Record)
+	DepStep  []int  // scheduler step of each accepted write (when Record)
 
 	RSeg, WSeg int
 	// NoYield makes writes plain deposits without gates (used by stubs that run
@@ -211,6 +212,9 @@ func (p *Pipe) deposit(b []byte) {
 	if p.Record {
 		p.Wire = append(p.Wire, b...)
 		p.WriteEnd = append(p.WriteEnd, len(p.Wire))
+		if p.S != nil {
+			p.DepStep = append(p.DepStep, p.S.Now())
+		}
 	}
 	start := p.Total
 	p.Total += int64(len(b))
@@ -403,3 +407,14 @@ func (c *Conn) SetWriteDeadline(t time.Time) error {
 }
 
 var _ net.Conn = (*Conn)(nil)
+
+// StepReached returns the scheduler step at which the stream's accepted bytes
+// first reached off (needs Record), or -1.
+func (p *Pipe) StepReached(off int64) int {
+	for i, e := range p.WriteEnd {
+		if int64(e) >= off && i < len(p.DepStep) {
+			return p.DepStep[i]
+		}
+	}
+	return -1
+}
